@@ -16,6 +16,7 @@ use rsadsb_common::Airplanes;
 use serde_json::json;
 
 use crate::bits::{flip_bit, hex, set_bits};
+use crate::enc;
 use crate::common::{guarded, last_panic_loc, Run, Tier, Violation};
 use crate::e1::{all_leaves, contexts, e1_coverage, run_units, Local};
 
@@ -231,7 +232,35 @@ fn merge(run: &Run, locs: Vec<Local>, total_counter: &str) {
     }
 }
 
+/// a tracing subscriber that enables every level and formats every field, so that the arguments of every log statement
+/// in the tracker are evaluated (radar enables logging; a panic inside a log argument is a panic of the operation)
+struct EvalAll;
+impl tracing::Subscriber for EvalAll {
+    fn enabled(&self, _: &tracing::Metadata<'_>) -> bool {
+        true
+    }
+    fn new_span(&self, _: &tracing::span::Attributes<'_>) -> tracing::span::Id {
+        tracing::span::Id::from_u64(1)
+    }
+    fn record(&self, _: &tracing::span::Id, _: &tracing::span::Record<'_>) {}
+    fn record_follows_from(&self, _: &tracing::span::Id, _: &tracing::span::Id) {}
+    fn event(&self, event: &tracing::Event<'_>) {
+        struct V(usize);
+        impl tracing::field::Visit for V {
+            fn record_debug(&mut self, _f: &tracing::field::Field, v: &dyn std::fmt::Debug) {
+                self.0 += format!("{v:?}").len();
+            }
+        }
+        let mut v = V(0);
+        event.record(&mut v);
+        std::hint::black_box(v.0);
+    }
+    fn enter(&self, _: &tracing::span::Id) {}
+    fn exit(&self, _: &tracing::span::Id) {}
+}
+
 pub fn run(tier: Tier) -> i32 {
+    let _ = tracing::subscriber::set_global_default(EvalAll);
     let run = Run::new("C01", tier);
     start_watchdog("C01");
 
@@ -422,6 +451,52 @@ pub fn run(tier: Tier) -> i32 {
         tr_cases.fetch_add(n, Ordering::Relaxed);
     });
     run.add("tracker_histories", tr_cases.load(Ordering::Relaxed));
+
+    // (e2) the receiver exactly at the antipode of the decoded position (the haversine term reaches, and through
+    //      rounding exceeds, 1), and exactly at the position (distance 0), for a sweep of latitudes and altitudes
+    //      (the odd report higher / lower than the even one), followed by a report far away (jump rejection path)
+    {
+        use rayon::prelude::*;
+        let lats: Vec<f64> = (0..1200).map(|i| -89.0 + 178.0 * (i as f64) / 1199.0).collect();
+        let n_ant = AtomicU64::new(0);
+        lats.par_iter().for_each(|lat| {
+            let lon = 13.7 + lat / 7.0;
+            for (alt_e, alt_o) in [(10000i64, 10025i64), (10025, 10000)] {
+                let even = enc::es_frame(17, 5, 0xabc001, enc::me_pos_latlon(11, alt_e, false, *lat, lon));
+                let odd = enc::es_frame(17, 5, 0xabc001, enc::me_pos_latlon(11, alt_o, true, *lat, lon));
+                let far = enc::es_frame(17, 5, 0xabc001, enc::me_pos_latlon(11, alt_o, true, (*lat + 3.0).clamp(-89.5, 89.5), lon + 2.5));
+                let (Ok(fe), Ok(fo)) = (Frame::from_bytes(&even), Frame::from_bytes(&odd)) else { continue };
+                let mut probe = Airplanes::new();
+                probe.action(fe, (*lat, lon), 1.0e9);
+                probe.action(fo, (*lat, lon), 1.0e9);
+                let Some(p) = probe.all_position().first().map(|x| x.1) else { continue };
+                let anti = (-p.latitude, if p.longitude > 0.0 { p.longitude - 180.0 } else { p.longitude + 180.0 });
+                for rx in [anti, (p.latitude, p.longitude), (-p.latitude, p.longitude + 180.0)] {
+                    n_ant.fetch_add(1, Ordering::Relaxed);
+                    let (e2, o2, f2) = (even.clone(), odd.clone(), far.clone());
+                    let res = guarded(move || {
+                        let mut planes = Airplanes::new();
+                        for x in [e2, o2, f2] {
+                            if let Ok(f) = Frame::from_bytes(&x) {
+                                planes.action(f, rx, 1.0e9);
+                            }
+                        }
+                        let _ = planes.to_string();
+                    });
+                    if let Err(pn) = res {
+                        run.violation(Violation {
+                            oracle: "no-panic".into(),
+                            class: "tracker-panic-antipode".into(),
+                            input: format!("rx={rx:?} range=1e9 frames={} ; {} ; {}", hex(&even), hex(&odd), hex(&far)),
+                            expected: "no panic".into(),
+                            observed: format!("panic: {pn} @ {}", last_panic_loc()),
+                        });
+                    }
+                }
+            }
+        });
+        run.add("antipode_receiver_histories", n_ant.load(Ordering::Relaxed));
+    }
 
     // (f) identification payloads: uniform strings of every code, and every pair of positions x boundary codes over
     //     fillers {space, 0, 63} in all four carriers (a trim / filter that indexes an emptied buffer shows only here)
